@@ -2,7 +2,8 @@
 
 Single-threaded world: the "schedule" of a case is the per-call behaviour script of a scripted socket.
 One run holds 5-20 independent cases (plan["ops"]); a case is either 1-4 successive
-``receive_data`` calls on one scripted socket, or one ``send_data`` call.
+``receive_data`` calls on one scripted socket, or one ``send_data`` call, or ("msg") 1-3 whole wire
+messages read with ``protocol.recv_stub`` through a SocketConnection over the scripted socket.
 
 The scripted socket executes one behaviour per recv/send call (sendall: per internal write):
     ["a"]        deliver / accept everything that was asked for
@@ -19,16 +20,36 @@ DESIGN.md, section C17); it never predicts how the code under test sizes its rec
 """
 import errno
 import socket
+import struct
 
 from ..world import World
-from ..seams import SU
+from ..seams import SU, PR
 import Pyro5.errors as E
 
+# The documented retry set, written down literally from the unchanged source (socketutil.py line 28:
+# ERRNO_RETRIES = [EINTR, EAGAIN, EWOULDBLOCK, EINPROGRESS]; the WSA* twins exist on Windows only).
+# It is the property's notion of "retryable" (interrupted, would-block, try-again) and deliberately
+# NOT read from socketutil.ERRNO_RETRIES at run time: that list is shared, mutable state of the code
+# under test.  receive_data/send_data consult no other table (ERRNO_BADF, ERRNO_ENOTSOCK, ... are
+# used by the servers and create_socket only).
 RETRY = ["EINTR", "EAGAIN", "EWOULDBLOCK", "EINPROGRESS"]
-FATAL = ["ECONNRESET", "EPIPE", "EBADF", "ENOTCONN", "ETIMEDOUT"]
-# the property's own notion of "retryable" (interrupted, would-block, try-again); deliberately NOT
-# taken from socketutil.ERRNO_RETRIES
 RETRY_CODES = frozenset(getattr(errno, n) for n in RETRY)
+# every other errno is fatal; a broad sample of what recv/send can report.  (EALREADY is left out:
+# it is a BlockingIOError, and whether "already in progress" is try-again is not ours to decide.)
+FATAL_CORE = ["ECONNRESET", "EPIPE", "EBADF", "ENOTCONN", "ETIMEDOUT"]
+FATAL_FAMILIES = {
+    "fatal_conn": ["ECONNABORTED", "ECONNREFUSED", "ENOTSOCK", "ESHUTDOWN", "EDESTADDRREQ"],
+    "fatal_net": ["EHOSTUNREACH", "EHOSTDOWN", "ENETDOWN", "ENETUNREACH", "ENETRESET", "ENONET"],
+    "fatal_proto": ["EPROTO", "ENOPROTOOPT", "EOPNOTSUPP", "EMSGSIZE"],
+    "fatal_resource": ["ENOBUFS", "ENOMEM", "EIO", "EINVAL", "EFAULT", "EPERM", "EACCES", "EMFILE"],
+}
+FATAL = FATAL_CORE + [n for fam in sorted(FATAL_FAMILIES) for n in FATAL_FAMILIES[fam] if hasattr(errno, n)]
+FAMILY_OF = {n: fam for fam, names in FATAL_FAMILIES.items() for n in names}
+assert not (RETRY_CODES & {getattr(errno, n) for n in FATAL}), "a fatal errno collides with the retry set"
+
+HEADER_FORMAT = "!4sHBBHHII16sHH"      # Pyro5 wire header (protocol.py), 40 bytes
+HEADER_SIZE = struct.calcsize(HEADER_FORMAT)
+MAGIC = 0x4dc5
 MSG_WAITALL = getattr(socket, "MSG_WAITALL", 0x100)
 
 PAT_LEN = 1000 + 4 * 131072 + 64
@@ -108,8 +129,9 @@ class _Sock:
 
 
 class _RSock(_Sock):
-    def __init__(self, ctx, script, timeout, base, end):
+    def __init__(self, ctx, script, timeout, base, end, buf=PAT):
         _Sock.__init__(self, ctx, script, timeout)
+        self.buf = buf
         self.c = base
         self.end = end
         self.ateof = False
@@ -155,7 +177,7 @@ class _RSock(_Sock):
             self.log.append(("z", "eof", n, flags, 0))
             self.ev("recv", n, flags, "z")
             return b""
-        out = PAT[self.c:self.c + want]
+        out = self.buf[self.c:self.c + want]
         self.c += want
         if want < n:
             self.ctx.fault("deliver_short")
@@ -215,7 +237,8 @@ class SockIOWorld(World):
     LEVEL = "exploration"
     REAL = ["Pyro5.socketutil.receive_data", "Pyro5.socketutil.send_data", "Pyro5.socketutil.__retrydelays",
             "Pyro5.socketutil.SocketConnection.recv/send (half of the cases go through the wrapper)",
-            "Pyro5.errors.ConnectionClosedError/TimeoutError"]
+            "Pyro5.errors.ConnectionClosedError/TimeoutError",
+            "Pyro5.protocol.recv_stub / ReceivingMessage (msg cases: whole wire messages over the scripted socket)"]
     STUB = ["socket object (scripted per call: deliver k / retryable errno / fatal errno / timeout / end of stream)",
             "time.sleep inside socketutil (virtual clock)", "socketutil.USE_MSG_WAITALL (set per case)",
             "ssl socket (a scripted socket with a getpeercert attribute that refuses recv flags)"]
@@ -223,10 +246,14 @@ class SockIOWorld(World):
               "retry_EINTR", "retry_EAGAIN", "retry_EWOULDBLOCK", "retry_EINPROGRESS", "chunk_60000_crossed",
               "backoff_slept_3", "eof_partial", "eof_empty", "timeout", "fatal", "etimedout_is_timeout",
               "ssl_like", "zero_size", "via_connection", "send_ok", "send_blocking", "send_loop", "send_partial",
-              "send_retry", "send_fatal", "send_timeout", "sendall_partial_fail"]
+              "send_retry", "send_fatal", "send_timeout", "sendall_partial_fail",
+              "fatal_conn", "fatal_net", "fatal_proto", "fatal_resource",
+              "msg_ok", "msg_multi", "msg_annotations", "msg_timeout_midway", "msg_timeout_clean", "msg_closed"]
     RULE = ("plan = 5-20 independent cases; a receive case = (stream offset, 1-4 read sizes around "
             "0/1/40/60000/60001/120001, stream length = sum of sizes +5/-3/0, USE_MSG_WAITALL, ssl-like, script of <= 12 "
-            "per-call behaviours); a send case = (buffer size, blocking or timeout mode, script); behaviour weights and the "
+            "per-call behaviours); a send case = (buffer size, blocking or timeout mode, script); a msg case = (1-3 wire "
+            "messages with payload sizes 0..3000/60001, optional annotation, trailing bytes, script) read with recv_stub; "
+            "fatal errnos are drawn from a broad list of names outside the literal retry set; behaviour weights and the "
             "errno subsets are drawn per run (swarm); distinct = distinct plan; non-trivial = at least one behaviour other "
             "than 'deliver everything' fired")
     ASSUMPTIONS = ["a socket call does exactly one scripted behaviour; recv never returns more than asked",
@@ -235,7 +262,10 @@ class SockIOWorld(World):
                    "scripts have at most 12 behaviours, afterwards the socket delivers / accepts everything",
                    "partialData is demanded on the end-of-stream path only; on a fatal errno it must be right if present",
                    "for sends, a retryable errno may legitimately end in ConnectionClosedError ('or raises')",
-                   "read size 0 may touch the socket once (MSG_WAITALL path) and then reports what the socket reported"]
+                   "read size 0 may touch the socket once (MSG_WAITALL path) and then reports what the socket reported",
+                   "every errno outside {EINTR, EAGAIN, EWOULDBLOCK, EINPROGRESS} is fatal (sampled: %s)" % ", ".join(FATAL),
+                   "msg cases: the stream holds valid wire messages only, so recv_stub may return the exact message or raise "
+                   "TimeoutError / ConnectionClosedError; a retry above receive_data is not judged, only its result"]
     QUICK_RUNS = 80000
     CHUNK = 500
     SHRINK_LISTS = ["ops"]
@@ -253,18 +283,25 @@ class SockIOWorld(World):
         if w_short + w_all + w_retry + w_fatal + w_to + w_eof == 0:
             w_short = 1
         retry_set = [n for n in RETRY if rng.random() < 0.6] or [rng.choice(RETRY)]
-        fatal_set = [n for n in FATAL if rng.random() < 0.6] or [rng.choice(FATAL)]
+        p_fat = rng.choice([0.1, 0.3, 0.7])
+        fatal_set = [n for n in FATAL if rng.random() < p_fat] or [rng.choice(FATAL)]
         p_large = rng.choice([0.02, 0.05, 0.15, 0.4])
         p_send = rng.choice([0.2, 0.35, 0.5])
+        p_msg = rng.choice([0.0, 0.1, 0.2, 0.4])
         p_waitall = rng.choice([0.0, 0.5, 0.5, 1.0])
         p_ssl = rng.choice([0.0, 0.15, 0.4])
         p_tmode = rng.choice([0.0, 0.5, 0.5, 1.0])
         maxlen = 12
+        run_w = (w_short, w_all, w_retry, w_fatal, w_to, w_eof)
         nops = rng.randint(5, 20)
         if p_large >= 0.4:
             nops = rng.randint(4, 8)
 
-        def script(sizes, send):
+        def script(sizes, send, w=None):
+            if w is None:
+                w_short, w_all, w_retry, w_fatal, w_to, w_eof = run_w
+            else:
+                w_short, w_all, w_retry, w_fatal, w_to, w_eof = w
             out = []
             tot = w_short + w_all + w_retry + w_fatal + w_to + (0 if send else w_eof)
             if tot == 0:
@@ -295,7 +332,25 @@ class SockIOWorld(World):
             return out
 
         ops = []
+        seq = 0
         for _ in range(nops):
+            if rng.random() < p_msg:
+                msgs = []
+                for _ in range(rng.randint(1, 3)):
+                    seq += 1
+                    if rng.random() < p_large * 0.5:
+                        n = rng.choice([60001, 120001])
+                    else:
+                        n = rng.choice([0, 1, 5, 40, 100, 300, rng.randrange(1, 3000)])
+                    msgs.append({"n": n, "ann": rng.choice([0, 0, 0, 1, 30]) if rng.random() < 0.4 else None,
+                                 "type": rng.choice([4, 5, 6]), "seq": seq, "flags": rng.choice([0, 0, 1, 4, 16])})
+                sizes = [6, HEADER_SIZE - 6] + [m["n"] for m in msgs]
+                # half of the msg cases use their own mix (fragmentation and timeouts inside a message)
+                w = None if rng.random() < 0.5 else (4, 3, 1, 0.3, 2, 0.3)
+                ops.append({"kind": "msg", "msgs": msgs, "slack": rng.choice([0, 0, 5, 40, -1]),
+                            "off": rng.randrange(1000), "waitall": rng.random() < p_waitall,
+                            "ssl": rng.random() < p_ssl, "timeout": 2.0, "script": script(sizes, False, w)})
+                continue
             if rng.random() < p_send:
                 if rng.random() < p_large:
                     n = rng.choice(SEND_LARGE + ([250001] if big else []))
@@ -336,7 +391,26 @@ class SockIOWorld(World):
                     for k in (1, b[1] // 2):
                         if k != b[1]:
                             yield var(script=sc[:j] + [["d", k]] + sc[j + 1:])
-            if op["kind"] == "recv":
+            if op["kind"] == "msg":
+                ms = op["msgs"]
+                for j in range(len(ms)):
+                    if len(ms) > 1:
+                        yield var(msgs=ms[:j] + ms[j + 1:])
+                for j, m in enumerate(ms):
+                    for k in (0, 1, 2, 40, m["n"] // 2):
+                        if k < m["n"]:
+                            yield var(msgs=ms[:j] + [dict(m, n=k)] + ms[j + 1:])
+                    if m.get("ann") is not None:
+                        yield var(msgs=ms[:j] + [dict(m, ann=None)] + ms[j + 1:])
+                    if m.get("flags"):
+                        yield var(msgs=ms[:j] + [dict(m, flags=0)] + ms[j + 1:])
+                if op.get("slack"):
+                    yield var(slack=0)
+                if op.get("ssl"):
+                    yield var(ssl=False)
+                if op.get("waitall"):
+                    yield var(waitall=False)
+            elif op["kind"] == "recv":
                 sz = op["sizes"]
                 for j in range(len(sz)):
                     if len(sz) > 1:
@@ -369,6 +443,8 @@ class SockIOWorld(World):
             ctx.sched.ev("case", i, op["kind"])
             if op["kind"] == "recv":
                 self._recv_case(ctx, op)
+            elif op["kind"] == "msg":
+                self._msg_case(ctx, op)
             else:
                 self._send_case(ctx, op)
         ctx.nontrivial = bool(ctx.faults)
@@ -528,8 +604,126 @@ class SockIOWorld(World):
             elif isinstance(exc, E.ConnectionClosedError):
                 if last[0] == "f":
                     ctx.probe("fatal")
+                    if last[1] in FAMILY_OF:
+                        ctx.probe(FAMILY_OF[last[1]])
                 elif last[0] == "z":
                     ctx.probe("eof_partial" if getattr(exc, "partialData", None) else "eof_empty")
+
+    # ---- whole messages through protocol.recv_stub -----------------------------------------------
+    def _msg_case(self, ctx, op):
+        """The stream holds valid wire messages (+ optional trailing bytes).  recv_stub must return exactly
+        the next message and leave the cursor at its end, or raise TimeoutError / ConnectionClosedError
+        for a reason the socket log shows.  Anything else (wrong payload, ProtocolError on a valid
+        stream, raw errors) means bytes of the stream were lost, duplicated or shifted."""
+        sched = ctx.sched
+        base = int(op.get("off", 0))
+        parts = []
+        expect = []
+        pos = 0
+        pp = base
+        for m in op["msgs"]:
+            n = int(m["n"])
+            ann = m.get("ann")
+            annbytes = b""
+            anns = {}
+            if ann is not None:
+                body = PAT[pp:pp + int(ann)]
+                pp += int(ann)
+                annbytes = struct.pack("!4sI", b"XTRA", len(body)) + body
+                anns = {"XTRA": body}
+            if pp + n > PAT_LEN:
+                raise ValueError("plan asks for more data than the pattern holds")
+            payload = PAT[pp:pp + n]
+            pp += n
+            hdr = struct.pack(HEADER_FORMAT, b"PYRO", PR.PROTOCOL_VERSION, int(m["type"]), 2, int(m["flags"]),
+                              int(m["seq"]) & 0xffff, n, len(annbytes), b"\0" * 16, 0, MAGIC)
+            parts.append(hdr + annbytes + payload)
+            pos += len(parts[-1])
+            expect.append((pos, m, anns, payload))
+        buf = b"".join(parts)
+        slack = int(op.get("slack", 0))
+        if slack > 0:
+            buf += PAT[pp:pp + slack]
+        elif slack < 0:
+            buf = buf[:max(0, len(buf) + slack)]
+        script = op.get("script", [])
+        SU.USE_MSG_WAITALL = bool(op.get("waitall"))
+        ssl = bool(op.get("ssl"))
+        sock = (_SslRSock if ssl else _RSock)(ctx, script, op.get("timeout"), 0, len(buf), buf)
+        if ssl:
+            ctx.probe("ssl_like")
+        conn = SU.SocketConnection(sock, keep_open=True)
+        nok = 0
+        for end, m, anns, payload in expect:
+            c0 = sock.c
+            l0 = len(sock.log)
+            sock.limit = sock.calls + (len(script) - sock.pos) + (len(buf) - c0) + 20
+            exc = None
+            msg = None
+            try:
+                msg = PR.recv_stub(conn)
+            except _Abort:
+                ctx.violate("no-termination", "msg", "recv_stub made more than %d socket calls; %s"
+                            % (sock.limit, self._tail(sock.log[l0:])))
+                return
+            except BaseException as x:  # noqa
+                exc = x
+            log = sock.log[l0:]
+            moved = sock.c - c0
+            sched.ev("msg-done", m["n"], type(exc).__name__ if exc is not None else "ok", moved, len(log))
+            if exc is None:
+                bad = None
+                try:
+                    data = bytes(msg.data)
+                    got_anns = {k: bytes(v) for k, v in msg.annotations.items()}
+                    head = (msg.type, msg.seq, msg.flags, msg.data_size, msg.annotations_size)
+                except Exception as x:  # noqa
+                    bad = ("short-or-wrong-data", "recv_stub returned %r (%r)" % (type(msg).__name__, x))
+                    data = got_anns = head = None
+                if bad is None:
+                    want_head = (int(m["type"]), int(m["seq"]) & 0xffff, int(m["flags"]), len(payload),
+                                 sum(8 + len(v) for v in anns.values()))
+                    if data != payload:
+                        first = next((i for i in range(min(len(data), len(payload))) if data[i] != payload[i]), None)
+                        bad = ("short-or-wrong-data", "payload of %d bytes is not the next %d payload bytes of the stream "
+                               "(first difference at %r)" % (len(data), len(payload), first))
+                    elif head != want_head or got_anns != anns:
+                        bad = ("short-or-wrong-data", "header/annotations %r %r differ from the stream's %r %r"
+                               % (head, sorted(got_anns), want_head, sorted(anns)))
+                    elif sock.c != end:
+                        bad = ("cursor-mismatch", "right message returned but the socket cursor is at %d, message ends at %d"
+                               % (sock.c, end))
+                if bad:
+                    ctx.violate(bad[0], "msg", "recv_stub (message of %d bytes): %s; %s" % (m["n"], bad[1], self._tail(log)))
+                    return
+                nok += 1
+                ctx.probe("msg_ok")
+                if anns:
+                    ctx.probe("msg_annotations")
+                continue
+            classes = [e[0] for e in log]
+            bad = None
+            if isinstance(exc, E.TimeoutError):
+                if "t" not in classes:
+                    bad = ("error-without-cause", "msg", "TimeoutError but the socket never timed out")
+                else:
+                    ctx.probe("msg_timeout_midway" if moved else "msg_timeout_clean")
+            elif isinstance(exc, E.ConnectionClosedError):
+                if "f" not in classes and "z" not in classes:
+                    bad = ("error-without-cause", "msg", "ConnectionClosedError without a fatal error or end of stream")
+                else:
+                    ctx.probe("msg_closed")
+            elif isinstance(exc, OSError):
+                bad = ("raw-oserror-escaped", "msg", "not a Pyro5 error: %r" % (exc,))
+            else:
+                bad = ("stream-desync", "msg:" + type(exc).__name__,
+                       "the stream holds valid messages only, yet: %r" % (exc,))
+            if bad:
+                ctx.violate(bad[0], bad[1], "recv_stub (message of %d bytes) raised %s: %s; %s"
+                            % (m["n"], type(exc).__name__, bad[2], self._tail(log)))
+            return
+        if nok >= 2:
+            ctx.probe("msg_multi")
 
     # ---- send ------------------------------------------------------------------------------------
     def _send_case(self, ctx, op):
@@ -607,6 +801,8 @@ class SockIOWorld(World):
                     bad = ("wrong-exception-class", key + ":errno->timeout", "last behaviour was %s" % (log[-1][1],))
                 else:
                     ctx.probe("send_timeout" if cls == "t" else "send_fatal")
+                    if cls == "f" and log[-1][1] in FAMILY_OF:
+                        ctx.probe(FAMILY_OF[log[-1][1]])
                     if blocking and peer:
                         ctx.probe("sendall_partial_fail")
         if bad:
